@@ -148,6 +148,35 @@ pub fn step_cfg(step: u8) -> Cfg {
     }
 }
 
+/// The same configuration step read off a different clock: variant 2 puts `now` 750 ms after
+/// T_k (at step 2 that is 250 ms before T_3, at step 0 250 ms before T_1: still not expired),
+/// variant 3 puts it 250 ms after T_k, spelled in the +09:00 zone, with the target names in
+/// reverse order. Readiness of every level is the same as under `step_cfg(step)`.
+pub fn step_cfg_var(step: u8, var: u64) -> Cfg {
+    let mut c = step_cfg(step);
+    match var % 4 {
+        2 => c.now = format!("{}.750{}", &c.now[..19], &c.now[19..]),
+        3 => {
+            let e = crate::refmodel::parse_rfc3339(&c.now).expect("step clock");
+            let z = crate::refmodel::fmt_rfc3339(e, 32400);
+            c.now = format!("{}.250{}", &z[..19], &z[19..]);
+            c.targets.reverse();
+        }
+        _ => {}
+    }
+    c
+}
+
+/// `cfg` itself unless it is the plain configuration of `step`, in which case one of its clock
+/// variants is chosen by `h` (replays carry their configuration and are not varied).
+pub fn vary_cfg(cfg: &Cfg, step: u8, h: u64) -> Cfg {
+    if *cfg == step_cfg(step) {
+        step_cfg_var(step, h)
+    } else {
+        cfg.clone()
+    }
+}
+
 /// Default step for single-configuration monitors.
 pub const STEP: u8 = 2;
 
